@@ -6,6 +6,7 @@ VERIF = os.path.dirname(os.path.dirname(os.path.abspath(__file__)))
 sys.path.insert(0, os.path.join(VERIF, "lib"))
 import vbuild  # noqa: E402
 
+OUT = os.environ.get("VERIF_OUT") or VERIF   # where evidence/ and replays/ are written (scratch when testing mutants)
 MAX_VIOL_KEPT = 400
 
 
@@ -98,19 +99,58 @@ def _pm_worker(args):
         return s
 
 
-def pmap(func, items, jobs=None):
-    """fork-based parallel map; func(item) -> Stats.  Deterministic merge order."""
+def _child(func, item, conn):
+    try:
+        r = _pm_worker((func, item))
+        conn.send(r)
+    except BaseException:
+        try:
+            s = Stats()
+            s.violation("infra:worker-exception", dict(item=repr(item)[:300]), detail=traceback.format_exc()[-3000:])
+            conn.send(s)
+        except Exception:
+            pass
+    finally:
+        conn.close()
+        os._exit(0)
+
+
+def pmap(func, items, jobs=None, crash_sig="crash"):
+    """One forked child per item (at most `jobs` at a time); func(item) -> Stats, merged in item order.
+    A child killed by a signal (segfault inside the library) becomes a violation instead of a hang."""
+    import multiprocessing.connection as mpc
     items = list(items)
     jobs = min(jobs or vbuild.JOBS, max(1, len(items)))
-    total = Stats()
-    if jobs <= 1:
-        for it in items:
-            total.merge(_pm_worker((func, it)))
-        return total
     ctx = mp.get_context("fork")
-    with ctx.Pool(jobs) as pool:
-        for r in pool.imap(_pm_worker, [(func, it) for it in items], chunksize=1):
-            total.merge(r)
+    results = [None] * len(items)
+    running = {}
+    nxt = 0
+    while nxt < len(items) or running:
+        while nxt < len(items) and len(running) < jobs:
+            pr, pw = ctx.Pipe(duplex=False)
+            p = ctx.Process(target=_child, args=(func, items[nxt], pw))
+            p.start()
+            pw.close()
+            running[pr] = (nxt, p)
+            nxt += 1
+        ready = mpc.wait(list(running), timeout=1.0)
+        for pr in ready:
+            idx, p = running.pop(pr)
+            try:
+                results[idx] = pr.recv()
+            except (EOFError, OSError):
+                p.join()
+                it = items[idx]
+                desc = [x for x in it if isinstance(x, (int, float, str)) and not str(x).startswith("/")][:8] if isinstance(it, (tuple, list)) else repr(it)[:200]
+                s = Stats()
+                s.violation("%s:signal%s" % (crash_sig, -p.exitcode if p.exitcode and p.exitcode < 0 else p.exitcode),
+                            dict(item=desc), expected="no crash", got="worker process died (exit code %r)" % p.exitcode)
+                results[idx] = s
+            pr.close()
+            p.join()
+    total = Stats()
+    for r in results:
+        total.merge(r)
     return total
 
 
@@ -174,7 +214,7 @@ def jsonable(x):
 
 
 def write_replay(pid, v, seed):
-    d = os.path.join(VERIF, "replays", pid)
+    d = os.path.join(OUT, "replays", pid)
     os.makedirs(d, exist_ok=True)
     body = jsonable(dict(property=pid, signature=v["sig"], case=v["case"], expected=v.get("expected"), got=v.get("got"),
                          detail=v.get("detail"), seed=seed))
@@ -229,8 +269,8 @@ def finish(ctx):
     cov.update(jsonable(ctx.extra))
     ev = dict(property_id=ctx.pid, tier=ctx.tier, seed=int(ctx.seed), level=ctx.level, coverage=cov,
               assumptions=ctx.assumptions, wall_s=round(time.time() - ctx.t0, 2), violations=int(reported))
-    os.makedirs(os.path.join(VERIF, "evidence"), exist_ok=True)
-    with open(os.path.join(VERIF, "evidence", ctx.pid + ".json"), "w") as f:
+    os.makedirs(os.path.join(OUT, "evidence"), exist_ok=True)
+    with open(os.path.join(OUT, "evidence", ctx.pid + ".json"), "w") as f:
         json.dump(ev, f, indent=1, sort_keys=True)
     print("%s tier=%s seed=%d evaluations=%d distinct_nontrivial=%d violations=%d wall=%.1fs" % (
         ctx.pid, ctx.tier, ctx.seed, st.evaluations, st.distinct_nontrivial, reported, time.time() - ctx.t0))
